@@ -321,6 +321,7 @@ def rulesShapes (sg : Graph) (useShapes : List Term) : Except Failure (List Shap
 /-- `RuleExpandRunner.run` / the advanced part of `Validator.run` on prepared graphs -/
 def runRules (o : Opts) (iterate : Bool) (sg dg : Graph) (rx : Regex) (focus useShapes : List Term)
     (constructs : Term → List Construct) (adv : AdvTables := {}) : Except Failure Graph :=
+  if hasLoopingList sg then .error .shapeLoad else
   match rulesShapes sg useShapes with
   | .error e => .error e
   | .ok (shapes, selected) =>
